@@ -205,7 +205,8 @@ class ActionConfigFile(Action):
                     raise TypeError(f'Parser key "{dest}": {ex_str}') from ex_str
             else:
                 cfg_file = parser.parse_path(value, **kwargs)
-            cfg_merged = parser.merge_config(cfg_file, cfg)
+            with change_to_path_dir(cfg_path):  # appends (key+) in the file are applied by the merge, relative paths follow the file
+                cfg_merged = parser.merge_config(cfg_file, cfg)
             cfg.__dict__.update(cfg_merged.__dict__)
             if not isinstance(cfg.get(dest), list):
                 cfg[dest] = []
